@@ -427,7 +427,7 @@ impl Drop for DrawStateWrapper<'_> {
 
 #[derive(Debug)]
 struct RateLimiter {
-    interval: u16, // in milliseconds
+    interval: u32, // in nanoseconds
     capacity: u8,
     prev: Instant,
 }
@@ -436,7 +436,9 @@ struct RateLimiter {
 impl RateLimiter {
     fn new(rate: u8) -> Self {
         Self {
-            interval: 1000 / (rate as u16), // between 3 and 1000 milliseconds
+            // `1 / rate` seconds, rounded up to whole nanoseconds so that the sustained rate
+            // never exceeds `rate` (between 3_921_569 and 1_000_000_000 nanoseconds)
+            interval: (1_000_000_000 + (rate as u32) - 1) / (rate as u32),
             capacity: MAX_BURST,
             prev: Instant::now(),
         }
@@ -448,19 +450,19 @@ impl RateLimiter {
         }
 
         let elapsed = now - self.prev;
-        // If `capacity` is 0 and not enough time (`self.interval` ms) has passed since
+        // If `capacity` is 0 and not enough time (`self.interval` ns) has passed since
         // `self.prev` to add new capacity, return `false`. The goal of this method is to
         // make this decision as efficient as possible.
-        if self.capacity == 0 && elapsed < Duration::from_millis(self.interval as u64) {
+        if self.capacity == 0 && elapsed < Duration::from_nanos(self.interval as u64) {
             return false;
         }
 
-        // We now calculate `new`, the number of ms, since we last returned `true`,
-        // and `remainder`, which represents a number of ns less than 1ms which we cannot
-        // convert into capacity now, so we're saving it for later.
+        // We now calculate `new`, the number of intervals since we last returned `true`,
+        // and `remainder`, which represents a number of ns less than one interval which we
+        // cannot convert into capacity now, so we're saving it for later.
         let (new, remainder) = (
-            elapsed.as_millis() / self.interval as u128,
-            elapsed.as_nanos() % (self.interval as u128 * 1_000_000),
+            elapsed.as_nanos() / self.interval as u128,
+            elapsed.as_nanos() % self.interval as u128,
         );
 
         // We add `new` to `capacity`, subtract one for returning `true` from here,
